@@ -95,6 +95,14 @@ Proof. destruct cache_on, (has_args args); reflexivity. Qed.
 Lemma has_args_false a : has_args a = false -> a = [].
 Proof. destruct a; [reflexivity | discriminate]. Qed.
 
+(* needToRun as the source has it (Gen.need_to_run_guards): one of its leading guards catches every run that
+   is given test arguments.  Fails when that guard is removed. *)
+Lemma guards_catch_args a : existsb (guard_fires a) need_to_run_guards = false -> a = [].
+Proof. destruct a; [reflexivity | cbn; discriminate]. Qed.
+
+Lemma guards_pass_no_args : existsb (guard_fires []) need_to_run_guards = false.
+Proof. reflexivity. Qed.
+
 Lemma same_inputs_refl a : same_inputs a a.
 Proof. split; reflexivity. Qed.
 
@@ -149,22 +157,26 @@ Proof.
   destruct (outcome_args (s_def x) (s_args x)); cbn [snd]; [discriminate | reflexivity].
 Qed.
 
-(* a result is reused only from a stored key equal to the current one *)
+(* a result is reused only by a run that no guard of needToRun catches, from a stored key equal to the
+   current one *)
 Lemma report_cached c st x :
   snd (do_step c st x) = CachedPass ->
   let st' := if s_rm x then rm_plz_out st else st in
-  st_local st' = Some (runtime_key (s_def x)) \/ In (runtime_key (s_def x)) (st_cache st').
+  existsb (guard_fires (s_args x)) need_to_run_guards = false
+  /\ (st_local st' = Some (runtime_key (s_def x)) \/ In (runtime_key (s_def x)) (st_cache st')).
 Proof.
   unfold do_step, test_step; cbn zeta.
   set (st' := if s_rm x then rm_plz_out st else st).
   set (k := runtime_key (s_def x)).
+  destruct (existsb (guard_fires (s_args x)) need_to_run_guards) eqn:Hg; cbn [orb].
+  { cbn [negb]. destruct (outcome_args (s_def x) (s_args x)); cbn [snd]; discriminate. }
   destruct (settled c st' (s_def x)) eqn:Hs;
     destruct (st_local st') as [l|] eqn:Hl.
   1: { destruct (key_eqb l k) eqn:Hk; cbn [negb snd].
-       - intros _; left; apply key_eqb_eq in Hk; subst; reflexivity.
+       - intros _; split; [reflexivity|]. left; apply key_eqb_eq in Hk; subst; reflexivity.
        - destruct (outcome_args (s_def x) (s_args x)); cbn [snd]; discriminate. }
   all: destruct (c && mem_key k (st_cache st')) eqn:Hm; cbn [negb snd];
-    [ intros _; right; apply andb_true_iff in Hm; apply mem_key_in, Hm
+    [ intros _; split; [reflexivity|]; right; apply andb_true_iff in Hm; apply mem_key_in, Hm
     | destruct (outcome_args (s_def x) (s_args x)); cbn [snd]; discriminate ].
 Qed.
 
@@ -204,7 +216,7 @@ Proof.
   set (k := runtime_key (s_def x)).
   destruct (negb _); cbn [fst snd].
   - intros Hcached _; cbn zeta in Hcached. split; cbn [st_local st_cache].
-    + intros k0 [= <-]. destruct (Hcached eq_refl) as [H|H]; apply justified_snoc; auto.
+    + intros k0 [= <-]. destruct (Hcached eq_refl) as [_ [H|H]]; apply justified_snoc; auto.
     + exact Hold.
   - destruct (outcome_args (s_def x) (s_args x)); cbn [fst snd]; intros _ Hnew; split; cbn [st_local st_cache].
     + rewrite exec_store_gen. destruct (has_args (s_args x)) eqn:Ha; cbn [fst]; [discriminate|].
@@ -225,14 +237,16 @@ Qed.
 (* ---------------------------------------------------------------------------------------------- *)
 (* consequences, for every history - no hypothesis *)
 
-(* A cached result is reported only if an EARLIER step of the history actually ran the test, that run
-   passed, it was given NO test arguments, and its runtime key equals the current one. *)
+(* A cached result is reported only by an invocation WITHOUT test arguments, and only if an EARLIER step of
+   the history actually ran the test, that run passed, it was given NO test arguments, and its runtime key
+   equals the current one. *)
 Theorem cached_only_from_passing_run c pre x :
-  report_at c pre x = CachedPass -> justified c pre (runtime_key (s_def x)).
+  report_at c pre x = CachedPass -> justified c pre (runtime_key (s_def x)) /\ s_args x = [].
 Proof.
   intros Hr. pose proof (inv_after c pre) as [Hl Hc].
-  destruct (report_cached c (state_after c pre) x Hr) as [H|H]; cbn zeta in H;
-    destruct (s_rm x); cbn in H; try discriminate; auto.
+  destruct (report_cached c (state_after c pre) x Hr) as [Hg H]; cbn zeta in H.
+  split; [|exact (guards_catch_args _ Hg)].
+  destruct H as [H|H]; destruct (s_rm x); cbn in H; try discriminate; auto.
 Qed.
 
 (* Failing results are never stored, hence never reused: the stored keys all come from passing runs
@@ -261,22 +275,26 @@ Proof.
   rewrite <- (step_outcome_no_args y Ha). exact (report_ran_pass _ _ _ Hr).
 Qed.
 
-(* A run that was given test arguments stores nothing: whatever the results file or the cache hold after
-   such a step was there before it (the results file only if the step reused it). *)
+(* A run that is given test arguments neither reuses nor stores anything: it is never reported as cached,
+   the cache holds no new key after it and no results file is left behind. *)
 Theorem args_step_stores_nothing c pre x :
   s_args x <> [] ->
-  (forall k, In k (st_cache (state_after c (pre ++ [x]))) -> In k (st_cache (state_after c pre)))
-  /\ (forall k, st_local (state_after c (pre ++ [x])) = Some k -> report_at c pre x = CachedPass).
+  report_at c pre x <> CachedPass
+  /\ (forall k, In k (st_cache (state_after c (pre ++ [x]))) -> In k (st_cache (state_after c pre)))
+  /\ st_local (state_after c (pre ++ [x])) = None.
 Proof.
   intros Ha. assert (Hh : has_args (s_args x) = true) by (destruct (s_args x); [contradiction | reflexivity]).
-  rewrite state_after_snoc; unfold report_at, do_step, test_step.
+  split. { intros Hr. destruct (cached_only_from_passing_run c pre x Hr) as [_ H]. contradiction. }
+  assert (Hg : existsb (guard_fires (s_args x)) need_to_run_guards = true).
+  { destruct (existsb (guard_fires (s_args x)) need_to_run_guards) eqn:E; [reflexivity|].
+    apply guards_catch_args in E. contradiction. }
+  rewrite state_after_snoc; unfold do_step, test_step.
   set (st' := if s_rm x then rm_plz_out (state_after c pre) else state_after c pre).
   assert (Hc : st_cache st' = st_cache (state_after c pre)) by (subst st'; destruct (s_rm x); reflexivity).
-  destruct (negb _); cbn [fst snd st_cache st_local].
+  rewrite Hg; cbn [orb negb].
+  destruct (outcome_args (s_def x) (s_args x)); cbn [fst snd st_cache st_local].
+  - rewrite exec_store_gen, Hh; cbn [fst snd]. rewrite Hc; split; auto.
   - rewrite Hc; split; auto.
-  - destruct (outcome_args (s_def x) (s_args x)); cbn [fst snd st_cache st_local].
-    + rewrite exec_store_gen, Hh; cbn [fst snd]. rewrite Hc; split; [auto | discriminate].
-    + rewrite Hc; split; [auto | discriminate].
 Qed.
 
 (* ---------------------------------------------------------------------------------------------- *)
@@ -286,36 +304,28 @@ Qed.
 Definition key_sound_on (h : list step) : Prop :=
   forall x y, In x h -> In y h -> runtime_key (s_def x) = runtime_key (s_def y) -> same_inputs (s_def x) (s_def y).
 
-(* needToRun does not look at the test arguments: harmless where they do not change the outcome *)
-Definition args_sound_on (h : list step) : Prop :=
-  forall x y, In x h -> In y h -> runtime_key (s_def x) = runtime_key (s_def y) -> s_args x = [] ->
-              outcome (s_def x) = true -> step_outcome y = true.
-
 Definition reuse_sound_at (c : bool) (pre : list step) (x : step) : Prop :=
   report_at c pre x = CachedPass ->
   exists pre1 y post1, pre = pre1 ++ y :: post1 /\ report_at c pre1 y = RanPass /\ same_inputs (s_def y) (s_def x)
-                       /\ s_args y = [].
+                       /\ s_args y = [] /\ s_args x = [].
 
 Definition outcome_fresh_at (c : bool) (pre : list step) (x : step) : Prop :=
   passed (report_at c pre x) = step_outcome x.
 
 Lemma reuse_sound_of_key_sound c pre x : key_sound_on (pre ++ [x]) -> reuse_sound_at c pre x.
 Proof.
-  intros Hs Hr. destruct (cached_only_from_passing_run c pre x Hr) as (pre1 & y & post1 & -> & Hy & Hk & Ha).
-  exists pre1, y, post1; split; [reflexivity|]; split; [exact Hy|]. split; [|exact Ha].
+  intros Hs Hr. destruct (cached_only_from_passing_run c pre x Hr) as [(pre1 & y & post1 & -> & Hy & Hk & Ha) Hx].
+  exists pre1, y, post1; split; [reflexivity|]; split; [exact Hy|]. split; [|split; [exact Ha | exact Hx]].
   apply Hs; [| | exact Hk]; rewrite !in_app_iff; cbn; tauto.
 Qed.
 
-Lemma outcome_fresh_of_key_sound c pre x :
-  key_sound_on (pre ++ [x]) -> args_sound_on (pre ++ [x]) -> outcome_fresh_at c pre x.
+Lemma outcome_fresh_of_key_sound c pre x : key_sound_on (pre ++ [x]) -> outcome_fresh_at c pre x.
 Proof.
-  intros Hs Has; unfold outcome_fresh_at.
+  intros Hs; unfold outcome_fresh_at.
   destruct (report_at c pre x) eqn:Hr; cbn [passed].
-  - destruct (cached_only_from_passing_run c pre x Hr) as (pre1 & y & post1 & -> & Hy & Hk & Ha).
-    assert (Hiny : In y ((pre1 ++ y :: post1) ++ [x])) by (rewrite !in_app_iff; cbn; tauto).
-    assert (Hinx : In x ((pre1 ++ y :: post1) ++ [x])) by (rewrite !in_app_iff; cbn; tauto).
-    symmetry; apply (Has y x Hiny Hinx Hk Ha).
-    rewrite <- (step_outcome_no_args y Ha). exact (report_ran_pass _ _ _ Hy).
+  - destruct (reuse_sound_of_key_sound c pre x Hs Hr) as (pre1 & y & post1 & _ & Hy & Hsame & Ha & Hx).
+    rewrite (step_outcome_no_args x Hx), <- (outcome_same_inputs _ _ Hsame), <- (step_outcome_no_args y Ha).
+    symmetry; exact (report_ran_pass _ _ _ Hy).
   - symmetry; exact (report_ran_pass _ _ _ Hr).
   - symmetry; exact (report_ran_fail _ _ _ Hr).
 Qed.
@@ -341,31 +351,14 @@ Proof.
   destruct (list_eqb str_eqb _ _); discriminate.
 Qed.
 
-Lemma step_pair_defect_none x y :
-  step_pair_defect x y = None ->
-  runtime_key (s_def x) = runtime_key (s_def y) ->
-  same_inputs (s_def x) (s_def y) /\ (s_args x = [] -> outcome (s_def x) = true -> step_outcome y = true).
+Lemma defect_class_none h : defect_class h = None -> key_sound_on h.
 Proof.
-  unfold step_pair_defect; intros H Hk.
-  destruct (pair_defect (s_def x) (s_def y)) eqn:Hp; [discriminate|].
-  split; [exact (pair_defect_none _ _ Hp Hk)|].
-  intros Ha Ho. apply key_eqb_eq in Hk; rewrite Hk, Ha, Ho in H; cbn [andb has_args negb] in H.
-  destruct (step_outcome y); cbn in H; congruence.
-Qed.
-
-Lemma defect_class_none h : defect_class h = None -> key_sound_on h /\ args_sound_on h.
-Proof.
-  intros H; unfold defect_class in H; split; intros x y Hx Hy Hk;
-    pose proof (first_some_none _ _ H x Hx) as H1; cbn beta in H1;
-    destruct (step_pair_defect_none _ _ (first_some_none _ _ H1 y Hy) Hk) as [Hs Ha]; auto.
+  intros H x y Hx Hy Hk. unfold defect_class in H.
+  pose proof (first_some_none _ _ H x Hx) as H1; cbn beta in H1.
+  exact (pair_defect_none _ _ (first_some_none _ _ H1 y Hy) Hk).
 Qed.
 
 Lemma key_sound_prefix pre x post : key_sound_on (pre ++ x :: post) -> key_sound_on (pre ++ [x]).
-Proof.
-  intros H a b Ha Hb; apply H; rewrite in_app_iff in *; cbn in *; tauto.
-Qed.
-
-Lemma args_sound_prefix pre x post : args_sound_on (pre ++ x :: post) -> args_sound_on (pre ++ [x]).
 Proof.
   intros H a b Ha Hb; apply H; rewrite in_app_iff in *; cbn in *; tauto.
 Qed.
@@ -375,14 +368,12 @@ Theorem partial_of_no_defect c h :
   defect_class h = None ->
   forall pre x post, h = pre ++ x :: post -> reuse_sound_at c pre x /\ outcome_fresh_at c pre x.
 Proof.
-  intros Hd pre x post ->. apply defect_class_none in Hd. destruct Hd as [Hk Ha].
-  apply key_sound_prefix in Hk. apply args_sound_prefix in Ha.
-  split; [apply reuse_sound_of_key_sound | apply outcome_fresh_of_key_sound]; assumption.
+  intros Hd pre x post ->. apply defect_class_none, key_sound_prefix in Hd.
+  split; [apply reuse_sound_of_key_sound | apply outcome_fresh_of_key_sound]; exact Hd.
 Qed.
 
 (* ---------------------------------------------------------------------------------------------- *)
-(* the witnesses: the real key (Gen.C11RuntimeHash.loop_writes) is blind to names, and needToRun is blind to
-   the test arguments *)
+(* the witnesses: the real key (Gen.C11RuntimeHash.loop_writes) is blind to names *)
 
 Definition mk (cmd : tcmd) (files : list rfile) : tsrc :=
   {| ts_rule := [s "//p:t"; s "//p:g"; s "s.txt"; s "t.bin"; s "cat"; s "//p:g"];
@@ -404,7 +395,9 @@ Definition w_dir : list step :=
     plain (mk (TExists (s "p/dd") (Some (s "a.txt")))
          [{| rf_role := RData; rf_dest := s "p/dd"; rf_node := Dir [(s "aa.txt", s "one"); (s "b.txt", s "two")] |}]) ].
 
-(* `plz test //p:t`, then `plz test //p:t -- bad` on the same tree, the test fails iff its first argument is bad *)
+(* `plz test //p:t`, then `plz test //p:t -- bad` on the same tree, the test fails iff its first argument is bad:
+   the run with the argument is not handed the stored result of the plain run (it was, before needToRun got
+   its arguments guard - the former finding run-with-arguments-reuses-argumentless-result) *)
 Definition w_args : list step :=
   [ plain (mk (TArgIsNot (s "bad")) []);
     {| s_rm := false; s_config := []; s_args := [s "bad"]; s_src := mk (TArgIsNot (s "bad")) [] |} ].
@@ -425,13 +418,9 @@ Proof.
   destruct c; vm_compute; repeat split.
 Qed.
 
-Lemma w_args_stale :
-  forall c, exists pre x, w_args = pre ++ [x] /\ report_at c pre x = CachedPass /\ step_outcome x = false
-                          /\ defect_class w_args = Some ArgsNotInKey.
-Proof.
-  intros c; exists [hd (plain (mk TTrue [])) w_args], (last w_args (plain (mk TTrue []))).
-  destruct c; vm_compute; repeat split.
-Qed.
+Lemma w_args_not_reused :
+  forall c, reports c w_args = [RanPass; RanFail] /\ defect_class w_args = None.
+Proof. intros c; destruct c; vm_compute; split; reflexivity. Qed.
 
 (* ---------------------------------------------------------------------------------------------- *)
 (* the same facts by position in the report list that the correspondence check compares with plz *)
@@ -467,7 +456,7 @@ Qed.
 Definition reuse_sound_pos (c : bool) (h : list step) (n : nat) (x : step) : Prop :=
   nth_error (reports c h) n = Some CachedPass ->
   exists i y, i < n /\ nth_error h i = Some y /\ nth_error (reports c h) i = Some RanPass
-              /\ same_inputs (s_def y) (s_def x) /\ s_args y = [].
+              /\ same_inputs (s_def y) (s_def x) /\ s_args y = [] /\ s_args x = [].
 
 Definition outcome_fresh_pos (c : bool) (h : list step) (n : nat) (x : step) : Prop :=
   exists r, nth_error (reports c h) n = Some r /\ passed r = step_outcome x.
@@ -481,7 +470,7 @@ Proof.
   destruct (partial_of_no_defect c h Hd pre x post Hh) as [Hreuse Hfresh].
   split.
   - unfold reuse_sound_pos; rewrite Hrep; intros [= Hr].
-    destruct (Hreuse Hr) as (pre1 & y & post1 & Hpre & Hy & Hsame & Ha).
+    destruct (Hreuse Hr) as (pre1 & y & post1 & Hpre & Hy & Hsame & Ha & Hx).
     subst pre h. destruct (earlier_position c pre1 y post1 x post) as (Hlt & Hy1 & Hy2).
     exists (length pre1), y; repeat split; try assumption; try (apply Hsame).
     + lia.
@@ -489,20 +478,21 @@ Proof.
   - exists (report_at c pre x); split; [exact Hrep | exact Hfresh].
 Qed.
 
-(* no hypothesis on the history: reuse comes from a passing, argument-less run with an equal KEY; failures
-   are real runs *)
+(* no hypothesis on the history: only an argument-less invocation reuses, and from a passing, argument-less
+   run with an equal KEY; failures are real runs *)
 Theorem no_failure_cached_by_position c h n x :
   nth_error h n = Some x ->
   (nth_error (reports c h) n = Some CachedPass ->
      exists i y, i < n /\ nth_error h i = Some y /\ nth_error (reports c h) i = Some RanPass
-                 /\ outcome (s_def y) = true /\ runtime_key (s_def y) = runtime_key (s_def x) /\ s_args y = [])
+                 /\ outcome (s_def y) = true /\ runtime_key (s_def y) = runtime_key (s_def x) /\ s_args y = []
+                 /\ s_args x = [])
   /\ (nth_error (reports c h) n = Some RanFail -> step_outcome x = false)
   /\ (nth_error (reports c h) n = Some RanPass -> step_outcome x = true).
 Proof.
   intros Hn. destruct (report_at_position c h n x Hn) as (pre & post & Hh & Hlen & Hrep).
   rewrite Hrep. repeat split.
   - intros [= Hr].
-    destruct (cached_only_from_passing_run c pre x Hr) as (pre1 & y & post1 & Hpre & Hy & Hk & Ha).
+    destruct (cached_only_from_passing_run c pre x Hr) as [(pre1 & y & post1 & Hpre & Hy & Hk & Ha) Hx].
     subst pre h. destruct (earlier_position c pre1 y post1 x post) as (Hlt & Hy1 & Hy2).
     exists (length pre1), y; repeat split; try assumption.
     + lia.
@@ -524,29 +514,22 @@ Proof.
   - rewrite reports_nth, Hr; reflexivity.
 Qed.
 
-(* a step with test arguments stores nothing, by position: the cache holds no new key after it, and the
-   results file exists after it only if the step reused it *)
+(* a step with test arguments neither reuses nor stores, by position: it is not reported as cached, the cache
+   holds no new key after it, and no results file is left behind *)
 Theorem args_run_never_stored c h x :
   s_args x <> [] ->
-  (forall k, In k (st_cache (state_after c (h ++ [x]))) -> In k (st_cache (state_after c h)))
-  /\ (forall k, st_local (state_after c (h ++ [x])) = Some k ->
-        nth_error (reports c (h ++ [x])) (length h) = Some CachedPass).
+  nth_error (reports c (h ++ [x])) (length h) <> Some CachedPass
+  /\ (forall k, In k (st_cache (state_after c (h ++ [x]))) -> In k (st_cache (state_after c h)))
+  /\ st_local (state_after c (h ++ [x])) = None.
 Proof.
-  intros Ha. destruct (args_step_stores_nothing c h x Ha) as [H1 H2]. split; [exact H1|].
-  intros k Hk. rewrite reports_nth. f_equal. exact (H2 k Hk).
+  intros Ha. destruct (args_step_stores_nothing c h x Ha) as (H0 & H1 & H2). split; [|split; assumption].
+  rewrite reports_nth. intros [= E]. contradiction.
 Qed.
 
 Lemma refuted_by_rename :
   ~ (forall c h n x, nth_error h n = Some x -> reuse_sound_pos c h n x /\ outcome_fresh_pos c h n x).
 Proof.
   intros H. destruct (H false w_rename 1 _ eq_refl) as [_ (r & Hr & Hp)].
-  vm_compute in Hr. injection Hr as <-. vm_compute in Hp. discriminate.
-Qed.
-
-Lemma refuted_by_args :
-  ~ (forall c h n x, nth_error h n = Some x -> outcome_fresh_pos c h n x).
-Proof.
-  intros H. destruct (H false w_args 1 _ eq_refl) as (r & Hr & Hp).
   vm_compute in Hr. injection Hr as <-. vm_compute in Hp. discriminate.
 Qed.
 
